@@ -202,6 +202,25 @@ def run(ctx):
         base_lines = open(base_path, encoding="utf-8", errors="replace").read().split("\n")
         float_lines += sum(1 for l in base_lines if re.search(r"\b[0-9a-f]{16}\b|\bbits\b|to_bits|f64", l))
         if pid == "C18":
+            # the text of Display for integer tensors is tied to the Lean model of format_view
+            fm = [(i, o) for i, o in enumerate(ops) if o.startswith("@ fmtint ")]
+            if fm:
+                import subprocess
+                q = subprocess.run([ctx["model_bin"], "C18"], input="".join(o + "\n" for _i, o in fm).encode(),
+                                   stdout=subprocess.PIPE, stderr=subprocess.PIPE)
+                model = q.stdout.decode().split("\n")
+                if q.returncode != 0 or len(model) < len(fm):
+                    raise ctx["MachineryError"]("model driver failed on C18 fmtint lines: " + q.stderr.decode()[-500:])
+                bad_fm = [(i, o, model[j]) for j, (i, o) in enumerate(fm) if base_lines[i] != model[j]]
+                cov["format_lines_compared_with_model"] = len(fm)
+                for i, o, m in bad_fm[:3]:
+                    violations.append({
+                        "case": f"C18: {o}", "property_workload": "C18", "ops": [o], "format_model": True,
+                        "implementation_answer": base_lines[i][:1500], "model_answer": m[:1500],
+                        "explanation": "the text Display produces for this integer tensor differs from the "
+                                       "Lean model of format_view (Model/Display.lean)",
+                        "replay_argv": ["python3", "props/c18_extra.py", "replay"],
+                    })
             for k, what in own_checks(ops, base_lines)[:3]:
                 toks = ops[k].split()
                 group = [o for o in ops if toks[1] == "names" and o.split()[1] == "names"
@@ -256,6 +275,13 @@ if __name__ == "__main__":
     import verif
     b = verif.build_harness(payload["property_workload"])
     ops = "".join(l + "\n" for l in payload["ops"]).encode()
+    if payload.get("format_model"):
+        p = subprocess.run([b, "run", "C18"], input=ops, stdout=subprocess.PIPE, env=dict(verif.ENV))
+        verif.lake_build(["emlmodel"])
+        q = subprocess.run([verif.MODEL_BIN, "C18"], input=ops, stdout=subprocess.PIPE)
+        a, m = p.stdout.decode().split("\n")[0], q.stdout.decode().split("\n")[0]
+        print(payload["ops"][0], "\n  implementation:", a, "\n  model:         ", m)
+        sys.exit(0 if a == m else 1)
     if payload.get("own_check"):
         p = subprocess.run([b, "run", "C18"], input=ops, stdout=subprocess.PIPE, env=dict(verif.ENV))
         answers = p.stdout.decode().split("\n")
